@@ -41,7 +41,7 @@ class BehaviorSubject(Subject[_T]):
                 return InnerSubscription(self, observer)
             ex = self.exception
 
-        if ex:
+        if ex is not None:
             observer.on_error(ex)
         else:
             observer.on_completed()
